@@ -443,8 +443,25 @@ func (w *Writer) WriteDataEnd(e *DataEnd) error {
 
 // WriteChunkWithIndexes writes a chunk record with the associated message indexes to the output.
 func (w *Writer) WriteChunkWithIndexes(c *Chunk, messageIndexes []*MessageIndex) error {
+	written, err := w.writeChunkWithIndexes(c, messageIndexes)
+	if err != nil || !written {
+		return err
+	}
+	if w.Statistics.MessageStartTime == 0 || c.MessageStartTime < w.Statistics.MessageStartTime {
+		w.Statistics.MessageStartTime = c.MessageStartTime
+	}
+	if c.MessageEndTime > w.Statistics.MessageEndTime {
+		w.Statistics.MessageEndTime = c.MessageEndTime
+	}
+	return nil
+}
+
+// writeChunkWithIndexes writes the chunk, its message indexes and records its chunk index. It does
+// not touch the message time statistics: chunks flushed by the writer itself hold messages that
+// WriteMessage has already accounted for (and may hold no message at all).
+func (w *Writer) writeChunkWithIndexes(c *Chunk, messageIndexes []*MessageIndex) (bool, error) {
 	if c.UncompressedSize == 0 {
-		return nil
+		return false, nil
 	}
 
 	compressedlen := len(c.Records)
@@ -462,7 +479,7 @@ func (w *Writer) WriteChunkWithIndexes(c *Chunk, messageIndexes []*MessageIndex)
 	w.ensureSized(recordHeaderLen)
 	offset, err := putByte(w.msg, byte(OpChunk))
 	if err != nil {
-		return err
+		return false, err
 	}
 
 	offset += putUint64(w.msg[offset:], uint64(msglen))
@@ -474,11 +491,11 @@ func (w *Writer) WriteChunkWithIndexes(c *Chunk, messageIndexes []*MessageIndex)
 	offset += putUint64(w.msg[offset:], uint64(compressedlen))
 	_, err = w.w.Write(w.msg[:offset])
 	if err != nil {
-		return err
+		return false, err
 	}
 	_, err = w.w.Write(c.Records)
 	if err != nil {
-		return err
+		return false, err
 	}
 	chunkEndOffset := w.w.Size()
 
@@ -490,7 +507,7 @@ func (w *Writer) WriteChunkWithIndexes(c *Chunk, messageIndexes []*MessageIndex)
 				messageIndexOffsets[messageIndex.ChannelID] = w.w.Size()
 				err = w.WriteMessageIndex(messageIndex)
 				if err != nil {
-					return err
+					return false, err
 				}
 			}
 		}
@@ -511,15 +528,7 @@ func (w *Writer) WriteChunkWithIndexes(c *Chunk, messageIndexes []*MessageIndex)
 	})
 
 	w.Statistics.ChunkCount++
-
-	if w.Statistics.MessageStartTime == 0 || c.MessageStartTime < w.Statistics.MessageStartTime {
-		w.Statistics.MessageStartTime = c.MessageStartTime
-	}
-	if c.MessageEndTime > w.Statistics.MessageEndTime {
-		w.Statistics.MessageEndTime = c.MessageEndTime
-	}
-
-	return nil
+	return true, nil
 }
 
 func (w *Writer) flushActiveChunk() error {
@@ -563,7 +572,7 @@ func (w *Writer) flushActiveChunk() error {
 		}
 	}
 
-	err = w.WriteChunkWithIndexes(&chunk, messageIndexes)
+	_, err = w.writeChunkWithIndexes(&chunk, messageIndexes)
 	if err != nil {
 		return err
 	}
